@@ -133,6 +133,14 @@ def run(rep, tier, seed):
     impl = engine.run_lines(engine.impl_bin('r'), lines, timeout=600)
     model = engine.run_lines(engine.MODEL, lines, timeout=1800)
     mism = [i for i in range(len(lines)) if impl[i] != model[i]]
+    # the certificate in Coq (coq/theories/Cert14.v) on the model's run of every case (sub-segments whose partner was returned
+    # too: an early exit leaves the rest unclassified); it speaks about the implementation's output wherever the two outputs
+    # are identical
+    cidx = list(range(len(cases)))
+    cout = engine.run_lines(engine.MODEL, ['cert14' + lines[i][len('subdiv'):] for i in cidx], timeout=1800)
+    cert = {i: (engine.payload(o).strip() if o.startswith('cert14') else '?') for i, o in zip(cidx, cout)}
+    cov['cert14'] = {'evaluated': len(cert), 'accepted': sum(1 for v in cert.values() if v == '1'),
+                     'rejected': sum(1 for v in cert.values() if v == '0'), 'not_returned': sum(1 for v in cert.values() if v == '-')}
     fails = []
     nsub = 0
     nontriv = set()
@@ -146,6 +154,8 @@ def run(rep, tier, seed):
         else:
             evs_j = evs
         bad = judge_complete(c, evs_j)
+        if cert.get(i) in ('0', '?') and impl[i] == model[i]:
+            bad = bad + ['the certificate Cert14.cert14 (Coq) rejects the flags of this run (%s)' % cert.get(i)]
         nsub += sum(1 for e in evs if e['left'])
         if any(e['type'] != 'N' for e in evs):
             nontriv.add(lines[i])
@@ -161,7 +171,7 @@ def run(rep, tier, seed):
                    'in_out, other_in_out, edge type of coincident pairs, result transition (incl. the twin rule) and prev_in_result compared with '
                    'exact crossing-number membership at the midpoint of the sub-segment; non-trivial = the input produced coincident edges.')
     cov['samples'] = [lines[0][:400]]
-    cov['trusted_base'] = c01.TRUSTED + ['the geometric reference for the flags is exact rational Python code']
+    cov['trusted_base'] = c01.TRUSTED + ['the geometric reference for the flags: the Coq certificate Cert14 with the membership of the verified region checker, doubled by exact rational Python code']
     rep.log('%d subdivisions, %d sub-segments: %d failing, %d model mismatches, table equal: %s' % (len(lines), nsub, len(fails), len(mism), table_ok))
     if fails:
         i, bad = fails[0]
